@@ -88,7 +88,6 @@ Theorem C04_nz_normalised_integral_q : forall dz (data : list Q),
 Proof. exact nz_normalised_integral_q. Qed.
 Print Assumptions C04_nz_normalised_integral_q.
 
-(* non-vacuity *)
 (* over the reals (standard real-number axioms): the documented formula w_sp / sqrt(dz^2 w_ss w_pp) is exactly
    the value that the squared form with sign (C04_nz_def, C04_nz_sq_unique) characterises *)
 Theorem C04_nz_sqrt_form : forall (wsp dz wss wpp : R), (0 < dz * dz * wss * wpp)%R ->
@@ -103,6 +102,45 @@ Theorem C04_nz_sqrt_unique : forall (wsp dz wss wpp y : R), (0 < dz * dz * wss *
 Proof. exact nz_sqrt_unique. Qed.
 Print Assumptions C04_nz_sqrt_unique.
 
+(* histories: CorrFunc.sample() is a function of what the constructor and the set_patch_pair calls
+   stored; the read-only public calls (get_array, sample_patch_sum, bins/patches indexing, to_dict,
+   to_file, ==, is_compatible, +, *, sample, from_corrfuncs, ...) made in between can be erased *)
+Theorem C04_history_observers_erased : forall h s, run_calls h s = run_calls (filter is_set h) s.
+Proof. exact run_calls_erase_observers. Qed.
+Print Assumptions C04_history_observers_erased.
+
+Theorem C04_sample_after_history : forall N h s,
+  cfs_data (run_calls h s) = cfs_data (run_calls (filter is_set h) s)
+  /\ cfs_samples N (run_calls h s) = cfs_samples N (run_calls (filter is_set h) s).
+Proof. exact sample_after_history. Qed.
+Print Assumptions C04_sample_after_history.
+
+Theorem C04_sample_after_observers : forall N h s, observers_only h = true ->
+  cfs_data (run_calls h s) = cfs_data s /\ cfs_samples N (run_calls h s) = cfs_samples N s.
+Proof. exact sample_after_observers. Qed.
+Print Assumptions C04_sample_after_observers.
+
+(* set_patch_pair(i, j, v) stores v[b] at [b, i, j] and leaves every other entry alone *)
+Theorem C04_set_patch_pair_same : forall i j x (M : mat),
+  (i < length M)%nat -> (j < length (nth i M []))%nat -> entry (mat_set i j x M) i j = x.
+Proof. exact mat_set_same. Qed.
+Print Assumptions C04_set_patch_pair_same.
+
+Theorem C04_set_patch_pair_other : forall i j x (M : mat) i' j',
+  (i', j') <> (i, j) -> entry (mat_set i j x M) i' j' = entry M i' j'.
+Proof. exact mat_set_other. Qed.
+Print Assumptions C04_set_patch_pair_other.
+
+(* the quantifier over histories says more than the statements about fresh containers: a
+   get_array that normalises the stored counts in place is indistinguishable on the empty history
+   and gives a different sample() after one read-only call *)
+Theorem C04_inplace_observer_refuted : exists s h, observers_only h = true
+  /\ res_values (cfs_data (run_calls h s)) = res_values (cfs_data s)
+  /\ res_values (cfs_data (run_calls_inplace h s)) <> res_values (cfs_data s).
+Proof. exact inplace_history_refuted. Qed.
+Print Assumptions C04_inplace_observer_refuted.
+
+(* non-vacuity *)
 Example C04_concrete_estimators :
   Qred (estimate 6 (Some 2) None (Some 4)) = 3 # 2        (* LS with rd := dr : (6-2-2+4)/4 *)
   /\ Qred (estimate 6 (Some 2) (Some 3) (Some 4)) = 5 # 4  (* LS : (6-2-3+4)/4 *)
@@ -122,4 +160,19 @@ Example C04_concrete_normalised :
   map (option_map Qred) (hist_normalised edges dz [Some 1; Some 3]) = [Some (1 # 2); Some (1 # 2)]
   /\ Qred (ointegral dz (hist_normalised edges dz [Some 1; Some 3])) = 1
   /\ map (option_map Qred) (nz_normalised dz [Some 2; None]) = [Some 2; None].
+Proof. vm_compute. repeat split; reflexivity. Qed.
+
+Example C04_concrete_history :
+  let p c := {| pc_auto := false; pc_counts := [[[c; 1]; [2; 3]]]; pc_w1 := [[1; 2]]; pc_w2 := [[2; 2]] |} in
+  let s := {| cf_dd := p 6; cf_dr := Some (p 2); cf_rd := None; cf_rr := None |} in
+  let h := [H_obs 0 K_dd; H_set K_dd 0 1 [5]; H_obs 16 K_dd; H_obs 6 K_dr] in
+  (* (6+5+2+3)/12 over (2+1+2+3)/12, minus 1 *)
+  res_values (cfs_data (run_calls h s)) = [1]
+  /\ res_values (cfs_data (run_calls [H_set K_dd 0 1 [5]] s)) = [1]
+  /\ res_values (cfs_data s) = [1 # 2]
+  (* the status code: sample() = 1 and unchanged stored arrays are accepted, a stale value or
+     normalised stored counts are not *)
+  /\ c04_hist_case 2 s h (Some (run_calls h s)) (Some ([Some 1], [[Some (-1)]; [Some (3 # 2)]])) = 0%nat
+  /\ c04_hist_case 2 s h (Some (run_calls h s)) (Some ([Some (1 # 2)], [[Some (-1)]; [Some (3 # 2)]])) = 3%nat
+  /\ c04_hist_case 2 s h (Some (run_calls_inplace h s)) (Some ([Some 1], [[Some (-1)]; [Some (3 # 2)]])) = 8%nat.
 Proof. vm_compute. repeat split; reflexivity. Qed.
